@@ -550,16 +550,18 @@ Definition update_validator (nv : validator) (s : vals) : vals :=
     let s1 := vl_journal (v_addr nv) (set_validator nv s) in
     if stake_equal nv old then s1 else vl_incr nv (vl_decr old s1)
   end.
-(* GetValidatorByMainAddr; RemoveValidator (acts on the cached object, deleted or not) *)
+(* GetValidatorByMainAddr; RemoveValidator: nothing for an object already removed;
+   otherwise flag it, take it out of the index and out of the statistics once *)
+Definition mark_removed (v : validator) (s : vals) : vals :=
+  vl_decr v (mkVals (vl_trie s) (ins (vl_objs s) (v_addr v) (set_deleted true v)) (vl_dirty s) (sins (vl_jd s) (v_addr v))
+                    (sdel (vl_index s) (v_addr v)) (vl_stat s) (vl_mod s) (vl_wq s)).
 Definition remove_validator (a : N) (s : vals) : vals :=
-  let cached := match find (vl_objs s) a with Some v => Some v | None => load_validator s a end in
-  match cached with
-  | None => s
-  | Some v =>
-    let s1 := match find (vl_objs s) a with Some _ => s | None => set_validator v s end in
-    let s2 := mkVals (vl_trie s1) (ins (vl_objs s1) a (set_deleted true v)) (vl_dirty s1) (sins (vl_jd s1) a)
-                     (vl_index s1) (vl_stat s1) (vl_mod s1) (vl_wq s1) in
-    vl_decr v s2
+  match find (vl_objs s) a with
+  | Some v => if v_deleted v then s else mark_removed v s
+  | None => match load_validator s a with
+            | Some v => mark_removed v (set_validator v s)
+            | None => s
+            end
   end.
 (* direct mutation of the statistics object returned by GetValidatorsStat (AddRewards / SetRewardsResidue) *)
 Definition stat_add_rewards (ix amt : N) (s : vals) : vals :=
@@ -589,23 +591,21 @@ Fixpoint remove_idx (i : N) (idx : list N) (q : list wrec) : list wrec :=
   | r :: t => if smem idx i then remove_idx (i + 1) idx t else r :: remove_idx (i + 1) idx t
   end.
 Definition remove_withdraws (idx : list N) (s : vals) : vals := set_wq (remove_idx 0 idx (get_wq s)) s.
-(* GetValidatorsForUpdate: the index is re-read from the trie whenever it is
-   NOT empty (ValidatorIndex.Empty is inverted); result = addresses listed *)
+(* GetValidatorsForUpdate: an empty index is re-read from the trie; result = addresses listed *)
 Definition list_validators (s : vals) : vals * list N :=
   let s1 := match vl_index s with
-            | [] => s
-            | _ => match vt_index (vl_trie s) with
-                   | Some l => match dec_idx (enc_idx l) with
-                               | Some l' => mkVals (vl_trie s) (vl_objs s) (vl_dirty s) (vl_jd s) (fold_left sins l' []) (vl_stat s) (vl_mod s) (vl_wq s)
-                               | None => s
-                               end
-                   | None => s
-                   end
+            | _ :: _ => s
+            | [] => match vt_index (vl_trie s) with
+                    | Some l => match dec_idx (enc_idx l) with
+                                | Some l' => mkVals (vl_trie s) (vl_objs s) (vl_dirty s) (vl_jd s) (fold_left sins l' []) (vl_stat s) (vl_mod s) (vl_wq s)
+                                | None => s
+                                end
+                    | None => s
+                    end
             end in
   (s1, vl_index s1).
 
-Definition is_invalid (v : validator) : bool :=
-  N.eqb (v_token v mod M64) 0 && N.eqb (v_stake v mod M64) 0.
+Definition is_invalid (v : validator) : bool := N.eqb (v_token v) 0 && N.eqb (v_stake v) 0.
 (* Finalise, validator loop *)
 Definition vl_finalise (s : vals) : vals :=
   let live := filter (fun a => match find (vl_objs s) a with Some _ => true | None => false end) (vl_jd s) in
@@ -617,9 +617,11 @@ Definition flush_val (de : bool) (s : vals) (a : N) : vals :=
   | Some v =>
     let t := vl_trie s in
     if v_deleted v || (de && is_invalid v) then
-      vl_decr v (mkVals (mkVT (del (vt_info t) a) (vt_index t) (vt_stat t) (vt_queue t))
-                        (ins (vl_objs s) a (set_deleted true v)) (vl_dirty s) (vl_jd s)
-                        (sdel (vl_index s) a) (vl_stat s) (vl_mod s) (vl_wq s))
+      (* deleteValidator: a validator RemoveValidator flagged has left the statistics already *)
+      let s1 := mkVals (mkVT (del (vt_info t) a) (vt_index t) (vt_stat t) (vt_queue t))
+                       (ins (vl_objs s) a (set_deleted true v)) (vl_dirty s) (vl_jd s)
+                       (sdel (vl_index s) a) (vl_stat s) (vl_mod s) (vl_wq s) in
+      if v_deleted v then s1 else vl_decr v s1
     else
       mkVals (mkVT (ins (vt_info t) a v) (vt_index t) (vt_stat t) (vt_queue t))
              (vl_objs s) (vl_dirty s) (vl_jd s) (sins (vl_index s) a) (vl_stat s) (vl_mod s) (vl_wq s)
